@@ -1,7 +1,6 @@
 """C04 is decided by the source-level de-optimisation check over the reference semantics (checks/c04.py) and by the
 VM-level theorems of coq/c01vm (peephole soundness; compile-correctness of the optimising compiler model against the
-optimisation-free denotation for fragment F).  Quick tier re-proves props/C01vm.v; the instruction-list correspondence
-that ties coq/c01vm to compiler.go runs under C01 in every tier and here in the thorough tier."""
+optimisation-free denotation for fragment F).  The c01vm sub-check (proofs + instruction-list correspondence with compiler.go) runs here in every tier as it does under C01."""
 import json, time
 import verif as V
 from wrap_c01 import _run
@@ -11,13 +10,9 @@ def run(tier, seed):
     t0 = time.time()
     import c04, c01vm
     rc1 = _run(c04, "C04sem", tier, seed, prop="C04")
-    if tier == "thorough":
-        rc2 = _run(c01vm, "C04vm", tier, seed, prop="C04")
-    else:
-        c = V.Check("C04", tier, seed, evidence_name="C04vm")
-        c.assumptions.append("coq/c01vm is tied to compiler.go/execute.go by the instruction-list and output correspondence of check C01 (sub-check c01vm)")
-        c.prove("props/C01vm.v")
-        rc2 = c.finish("theorems of coq/props/C01vm.v re-checked (peephole soundness, compile correctness for fragment F)")
+    # the peephole / folding / inlining rewrites live in compiler.go: the instruction-list correspondence of
+    # coq/c01vm (model of the optimising compiler) against VerifDumpCode runs here too, in every tier
+    rc2 = _run(c01vm, "C04vm", tier, seed, prop="C04")
     V.merge_evidence("C04", ["C04sem", "C04vm"], tier, seed, time.time() - t0)
     return 1 if (rc1 or rc2) else 0
 
